@@ -308,8 +308,28 @@ func TestC19(t *testing.T) {
 		ev.Case(true, fmt.Sprintf("%v", c), "fixed-language-list")
 		verdict(t, "C19", "c19", c, checkC19)
 	}
+	// hand-built definitions: regions, styles, cues and runs that carry no inline attributes at all (nil), alone and together
+	for k := 0; k < 8; k++ {
+		g := glSpec{Meta: glMeta{Title: "t"},
+			Styles:  []glStyle{{ID: "s", NilInline: k&1 != 0}},
+			Regions: []glRegion{{ID: "r", NilInline: k&2 != 0, Style: "s"}, {ID: "top", NilInline: k&2 == 0}},
+			Cues: []glCue{{Start: 1000 * nsMs, End: 2000 * nsMs, JC: -1, VP: -1, Region: "r", Style: "s", NilInline: k&4 != 0, Lines: []glLine{{Runs: []glRun{{Text: "x", NilInline: k&4 != 0}, {Text: "y", Style: "s"}}}}},
+				{Start: 3000 * nsMs, End: 4000 * nsMs, JC: -1, VP: -1, Region: "top", Lines: []glLine{{Runs: []glRun{{Text: "z"}}}}}}}
+		c := c19Case{Spec: g, Order: []int{k % 5, (k + 1) % 5, (k + 2) % 5, (k + 3) % 5, (k + 4) % 5}}
+		ev.Case(true, fmt.Sprintf("%v", c), "fixed-nil-inline-attributes")
+		verdict(t, "C19", "c19", c, checkC19)
+	}
 	rapidCheck(t, "C19/lists", tier(300, 20000), func(rt *rapid.T) {
 		c := c19Case{Spec: genGLRaw(rt), Order: genPerm(rt, 5, "order")}
+		if rapid.IntRange(0, 3).Draw(rt, "nilinline") == 0 {
+			// (drawn last) definitions without inline attributes, as a caller builds them by hand
+			for i := range c.Spec.Regions {
+				c.Spec.Regions[i].NilInline = i%2 == 0
+			}
+			for i := range c.Spec.Styles {
+				c.Spec.Styles[i].NilInline = i%2 == 1
+			}
+		}
 		nt, ls := c19Labels(c.Spec)
 		ev.Case(nt, fmt.Sprintf("%v", c), ls...)
 		if nt && len(c.Spec.Cues) <= 2 {
